@@ -154,6 +154,11 @@ def class_table():
         except Exception:
             uid = None
         rows.append({"idx": i, "name": n, "kind": class_kind(c), "uid": uid})
+    # layer B (isinstance tests of the `_fix_violation` models): proper ancestors inside the table
+    byname = {r["name"]: r["idx"] for r in rows}
+    for r in rows:
+        c = classes[r["name"]]
+        r["ancestors"] = sorted({byname[k.__module__ + "." + k.__qualname__] for k in c.__mro__[1:] if (k.__module__ + "." + k.__qualname__) in byname})
     index = {n: i for i, n in enumerate(names)}
     for r in rows:
         # every class of the table the class is an instance of (itself first): `isinstance` as a table
@@ -238,6 +243,20 @@ def rule_table(class_index):
                     ok = False
             if ok:
                 tok_params[k] = names
+        # layer B, insert family: the token(s) a rule is parameterised to insert
+        from vsg import parser as _parser
+
+        ins_toks = None
+        ins_cls = None
+        for attr in ("insert_token", "oInsertToken", "insert_tokens"):
+            v = r.__dict__.get(attr)
+            if v is None:
+                continue
+            vals = v if isinstance(v, (list, tuple)) else [v]
+            if all(isinstance(x, _parser.item) for x in vals):
+                ins_toks = [[class_index.get(type(x).__module__ + "." + type(x).__qualname__, -1), x.get_value()] for x in vals]
+            elif len(vals) == 1 and inspect.isclass(vals[0]):
+                ins_cls = class_index.get(vals[0].__module__ + "." + vals[0].__qualname__, -1)
         d = docs.get(r.unique_id)
         rows.append(
             {
@@ -266,6 +285,8 @@ def rule_table(class_index):
                 "defaults": {k: jsonable(getattr(r, k, None)) for k in r.configuration if k != "severity"},
                 "options": [o.name for o in r.options],
                 "tokParams": tok_params,
+                "insertToks": ins_toks,
+                "insertCls": ins_cls,
                 "docPhase": d["phase"] if d else None,
                 "docSeverity": d["severity"] if d else None,
                 "docLabels": d["labels"] if d else None,
@@ -596,6 +617,54 @@ def emit_case_rules(rrows, crow):
     return "\n".join(L) + "\n"
 
 
+NAMED_CLASSES = (
+    ("semicolonCls", "vsg.parser.semicolon"),
+    ("openParenCls", "vsg.parser.open_parenthesis"),
+    ("closeParenCls", "vsg.parser.close_parenthesis"),
+    ("parserCommentCls", "vsg.parser.comment"),
+    ("interfaceListSemicolonCls", "vsg.token.interface_list.semicolon"),
+)
+
+
+def emit_class_tree(rows):
+    """`isinstance` as data: the proper ancestors (inside the class table) of every token class"""
+    L = []
+    L.append("/- GENERATED by harness/gen_tables.py from the class hierarchy of vsg.parser / vsg.token.* — do not edit -/")
+    L.append("namespace Vsgm.Gen")
+    names = []
+    CH = 64
+    for i in range(0, max(len(rows), 1), CH):
+        nm = f"classParents_{i // CH}"
+        names.append(nm)
+        L.append(f"def {nm} : List (List Nat) := " + lean_list([lean_list([str(a) for a in r["ancestors"]]) for r in rows[i : i + CH]]))
+    L.append("/-- proper ancestors (class indices) per class index -/")
+    L.append("def classParentsList : List (List Nat) := " + " ++ ".join(names))
+    L.append("def classParents : Array (List Nat) := classParentsList.toArray")
+    L.append("/-- Python `isinstance(<token of class c>, <class p>)` -/")
+    L.append("def isa (c p : Nat) : Bool := c == p || (classParents.getD c []).contains p")
+    byname = {r["name"]: r["idx"] for r in rows}
+    for lean_name, py_name in NAMED_CLASSES:
+        L.append(f"def {lean_name} : Nat := {byname.get(py_name, len(rows))}")
+    L.append("end Vsgm.Gen")
+    return "\n".join(L) + "\n"
+
+
+def emit_struct_params(rrows, n_classes):
+    """insert family: the parameter tokens (class index, value) / parameter class of every rule that has one"""
+    L = []
+    L.append("/- GENERATED by harness/gen_tables.py from the rule objects of /repo (insert_token / oInsertToken / insert_tokens) — do not edit -/")
+    L.append("namespace Vsgm.Gen")
+    fix = lambda c: c if c >= 0 else n_classes  # noqa: E731
+    toks = [r for r in rrows if r.get("insertToks") is not None]
+    clss = [r for r in rrows if r.get("insertCls") is not None]
+    L.append("/-- rule id ↦ the token objects (class index, value) the rule inserts -/")
+    L.append("def insertTokParams : List (String × List (Nat × String)) := " + lean_list(["(%s, %s)" % (lean_str(r["id"]), lean_list(["(%d, %s)" % (fix(c), lean_str(v)) for c, v in r["insertToks"]])) for r in toks]))
+    L.append("/-- rule id ↦ the token class the rule instantiates with a value taken from another token -/")
+    L.append("def insertClsParams : List (String × Nat) := " + lean_list(["(%s, %d)" % (lean_str(r["id"]), fix(r["insertCls"])) for r in clss]))
+    L.append("end Vsgm.Gen")
+    return "\n".join(L) + "\n"
+
+
 def ranges(xs):
     out = []
     for x in xs:
@@ -656,6 +725,10 @@ def generate(verbose=False):
         json.dump(ct, open(ct_path, "w"))
     sym = lexer_symbols()
     changed = []
+    if write_if_changed(os.path.join(GEN, "ClassTree.lean"), emit_class_tree(crow)):
+        changed.append("ClassTree.lean")
+    if write_if_changed(os.path.join(GEN, "StructParams.lean"), emit_struct_params(rrows, len(crow))):
+        changed.append("StructParams.lean")
     if write_if_changed(os.path.join(GEN, "Rules.lean"), emit_rules(rrows)):
         changed.append("Rules.lean")
     if write_if_changed(os.path.join(GEN, "Classes.lean"), emit_classes(crow)):
